@@ -175,10 +175,22 @@ fn exec_long(case: &Value) -> Vec<Value> {
         };
         let _ = std::fs::remove_file(&tmp);
         let mut st = "ok".to_string();
+        // number of token groups and sum of their lengths (byte tokenizer, grapheme mode): one group per character
+        let mut ngroups: i64 = -1;
+        let mut gsum: i64 = -1;
+        fn glen(g: &TokenGroup) -> usize { match g { TokenGroup::Empty(n) | TokenGroup::Full(n) => *n, TokenGroup::Nested(v) => v.iter().map(glen).sum() } }
         let (ids, dec, vs) = match built {
             Ok(Ok(tok)) => {
                 let ids = match guard(|| tok.tokenize(&text, true)) {
-                    Ok(Ok(t)) => t.token_ids,
+                    Ok(Ok(t)) => {
+                        if let TokenizationInfo::TokenGroups(m) = &t.info {
+                            if let Some(g) = m.values().next() {
+                                ngroups = g.0.len() as i64;
+                                gsum = g.0.iter().map(glen).sum::<usize>() as i64;
+                            }
+                        }
+                        t.token_ids
+                    }
                     Ok(Err(e)) => { st = format!("err:tokenize:{e}"); vec![] }
                     Err(m) => { st = format!("panic:tokenize:{m}"); vec![] }
                 };
@@ -193,6 +205,7 @@ fn exec_long(case: &Value) -> Vec<Value> {
             Err(m) => { st = format!("panic:new:{m}"); (vec![], vec![], 0) }
         };
         out.push(json!({"st": st, "kind": "long", "which": which, "text": text.as_bytes(), "ids": ids, "dec": dec, "vs": vs,
+                        "ngroups": ngroups, "gsum": gsum, "nchars": clusters(&text, true).len(),
                         "tab": tab.iter().map(|e| bytes_json(e)).collect::<Vec<_>>(), "case": case}));
     }
     out
